@@ -25,7 +25,9 @@ import numpy as np
 from . import c13, common
 
 PROP = "C15"
-LEAN_MODULES = ["MiciVerif.Props.C15"]
+# Props/C15S.lean: generated control skeleton of the interrupt paths vs the model's
+LEAN_MODULES = ["MiciVerif.Props.C15", "MiciVerif.Props.C15S"]
+GENERATED = ["sampler_skeleton"]
 LEAN_EXTRA = c13.LEAN_EXTRA
 
 SIG_ADAPTIVE = "interrupt in adaptive stage: sample_chains raised"
@@ -519,6 +521,7 @@ def run(ctx: common.Ctx):
         {**c13.DEFAULT, "inits": [[0, 0], [1, 0], [2, 0]], "nw": 4, "nm": 2, "tw": False, "hs": True, "hf": False,
          "stager": ["win", 1, 1, 1, "2"]},
     ]
+    esc = c13.skeleton_escalation(ctx)  # > 1: the orchestration code is not the code the model was written against
     cfgs = fixed + [gen_cfg15(rng) for _ in range(ctx.n(30, 200))]
     n_par = 0
     for cfg in cfgs:
@@ -528,7 +531,7 @@ def run(ctx: common.Ctx):
             ctx.disagreement(f"uninterrupted run raised {base['error']}", case0)
             continue
         calls = base["calls"]
-        if ctx.quick:
+        if ctx.quick and esc == 1:
             idxs = sorted({int(v) for v in rng.integers(0, len(calls), 12)} | {len(calls) - 1})
         else:
             idxs = list(range(len(calls)))
@@ -619,6 +622,7 @@ LEVEL_TEXT = (
     "interrupt_stops_run, later_stages_not_started, uninterrupted_rows_final). Tied to the code by interrupting "
     "real runs at sampled/all user-call indices (sequential, 2-process, single/multi-stage, memmap with .npy "
     "read-back) and comparing with the model and with the uninterrupted real run."
+    " Source-text tie (Props/C15S): the statement trees of the interrupt paths are re-extracted on every run: handler and finally-flush of _sample_chain, normal return after the try, break of the sequential loop, worker reporting the interrupt and stopping, parent recording it without raising, return of the stage loop directly after the chains ran and before _finalize_adapters / the offset update; the iteration body read as operations on the model state is Sampler.iterOps (an interrupt inside operation j leaves it and everything after it undone)."
 )
 LEVEL_NOTE = (
     "Partial: real asynchronous SIGINT delivery (at arbitrary bytecode boundaries, to parent and worker processes "
@@ -632,4 +636,5 @@ LEVEL_NOTE = (
 TECHNIQUE = (
     "Lean 4 theorems (prefix/suffix decomposition of the operation sequence, frame lemmas) + fault injection at "
     "every user-function call index of real runs compared with the model and the uninterrupted run"
+    " + AST-extracted control skeleton of the interrupt paths proved equal to the model's (decide +kernel)"
 )
